@@ -1058,3 +1058,12 @@ package mail
 //@ at mail.msgWriter.addFiles mail.File.setHeader#1 before assert[C18:file-type-line-unfolded] mw.depth > 0 ==> linefits(arg1, arg2)
 //@ at mail.msgWriter.addFiles mail.File.setHeader#3 before assert[C18:file-description-line-unfolded] mw.depth > 0 ==> linefits(arg1, arg2)
 //@ at mail.msgWriter.addFiles mail.File.setHeader#4 before assert[C18:file-disposition-line-unfolded] mw.depth > 0 ==> linefits(arg1, arg2)
+// C20 (continued): what the Msg reports about its own delivery error is the recorded SendError's verdict
+//@ func mail.Msg.SendErrorIsTemp () (r)
+//@   requires[C20:wf] m != nil
+//@   ensures[C20:temp-of-the-recorded-error] istype(m.sendError, "*mail.SendError") ==> r == as(m.sendError, "*mail.SendError").isTemp
+//@   ensures[C20:no-error-is-not-temporary] m.sendError == nil ==> !r
+//@ func mail.Msg.HasSendError () (r)
+//@   ensures[C20:has-iff-recorded] r == (m.sendError != nil)
+//@ func mail.Msg.SendError () (r)
+//@   ensures[C20:the-recorded-error] r == m.sendError
